@@ -26,6 +26,13 @@ def _c03_project(op, a):
             return "err other"
     return a
 
+def _c03_project_keep_wont(op, a):
+    if a.startswith("err "):
+        k = a[4:].strip()
+        if k not in ("unexpected-end", "bad-varint", "bad-bool", "bad-option", "bad-utf8", "bad-char", "wont-implement"):
+            return "err other"
+    return a
+
 PROPS = {
     "C01": {
         "gens": ["C01"],
@@ -136,5 +143,14 @@ PROPS = {
         "diff_is_witness": False,
         "trusted_base": COMMON_TB + ["HashSet is MODELLED as a duplicate-free list compared after sorting", "String formatting of usize MODELLED as decimal digits"],
         "assumptions": ["the model mirrors the REPAIRED discover_tys (fix: commit 5cca30a); `discover_panics_iff` characterises the unrepaired code"],
+    },
+    "C04": {
+        "gens": ["C04"],
+        "rule": "`deg <type> <bytes>`: the C03 adversarial stream (subsampled) decoded with the input copied flush against PROT_NONE pages on the right and on the left (a read outside the input is a SIGSEGV attributed to the op line), through the slice path and the reader path (scratch buffer also guarded, three scratch sizes), with every borrowed str/bytes checked to lie inside the input right after its length prefix, ordered and disjoint, and every sequence size hint <= input length; `alloc <concrete type> <bytes>`: 10 heap-allocating Rust types (Vec<u8/u64/u128>, String, Vec<String>, Vec<Vec<u16>>, ...) decoded from adversarial length prefixes up to u64::MAX under a counting allocator with bound K_T*len+1024; any/identifier/ignored requests; non-trivial = distinct op line with >= 1 input byte",
+        "nontrivial": lambda op, a: not op.endswith(" x"),
+        "project": _c03_project_keep_wont,
+        "diff_is_witness": True,
+        "trusted_base": COMMON_TB + [SERDE_TB, CORE_TB, "PARTIAL: real memory safety and real allocation are runtime behaviour observed by the harness (guard pages, counting allocator), the theorems are about the cursor arithmetic, remainder/prefix structure and size-hint logic of the model", "serde's size_hint::cautious and Vec growth are MODELLED (Model/SizeHint.lean)"],
+        "assumptions": ["allocation bound claimed for element types occupying >= 1 wire byte; map pre-allocation (MapAccess::size_hint returns the claimed length, capped by serde at 1 MiB) is outside the property's statement and not checked"],
     },
 }
